@@ -31,6 +31,7 @@ def gen(r, n):
     scs.append(dict(u=150, period=1, ta=2, grace=1, leak=0.7, dur=6, on_term="ignore", child=True, sigs=[],
                     no_capture=True))
     scs.append(dict(u=150, period=1, ta=1, grace=0, leak=0.7, dur=3.5, on_term="ignore", sigs=[], no_capture=True))
+    scs.append(dict(u=150, period=1, ta=2, grace=1, leak=0.7, dur=6, on_term="ignore", child=True, sigs=[], direct_spawn=True))
     # terminated at the deadline, then exits with status 0 within the grace period: still a timeout
     scs.append(dict(u=150, period=1, ta=2, grace=2, leak=0.7, dur=6, on_term=("late_ok", 0.5), sigs=[]))
     scs.append(dict(u=150, period=1, ta=1, grace=2, leak=0.7, dur=6, on_term=("late_ok", 0.5), sigs=[],
